@@ -143,6 +143,13 @@ def strategy(tier):
     return _case()
 
 
+def _r(x):
+    try:
+        return repr(x)
+    except Exception as e:  # noqa
+        return f"<unprintable {type(x).__name__}: {e!r}>"
+
+
 def _has_ellipsis(v):
     if v is Ellipsis:
         return True
@@ -183,7 +190,8 @@ def check(case, ctx):
     try:
         S = specs.build(spec)
     except DeclarationError as e:
-        raise HarnessError(f"satisfiable-spec generator produced an undeclarable spec {spec!r}: {e}")
+        ctx.skip_undeclarable(None, e)
+        return
     except SubstitutionError:
         ctx.label("skip:substitution-refused")
         return
@@ -192,6 +200,13 @@ def check(case, ctx):
             ctx.label("skip:substitution-raised(C12)")     # exception type of substitute is C12's business
             return
         raise
+    if spec["t"] == "subst":
+        from .c12 import _illegal_ellipsis
+        if _illegal_ellipsis(S):
+            # substitution copied a `...` placeholder to a place where no schema can stand (open finding
+            # of C12, key ellipsis-copied-into-schema): such a result is not a schema C01 speaks about
+            ctx.label("skip:malformed-result(C12 finding)")
+            return
     if case["witness"] == _NOVAL:
         ctx.label("skip:no-witness-built")
         return
@@ -218,13 +233,13 @@ def check(case, ctx):
             with rng.seeded(case["seed"]):
                 g = fake(S) if entry == 0 else ~S
     except Exception as e:  # noqa
-        raise Violation(f"fake-raises:{type(e).__name__}", f"fake({S!r}) raised {e!r}")
+        raise Violation(f"fake-raises:{type(e).__name__}", f"fake({_r(S)}) raised {e!r}")
     try:
         res = validate(S, g)
     except Exception as e:  # noqa
-        raise Violation("validate-raises", f"validate({S!r}, {g!r}) raised {e!r}")
+        raise Violation("validate-raises", f"validate({_r(S)}, {g!r}) raised {e!r}")
     if res.has_errors():
-        raise Violation("fake-invalid", f"fake({S!r}) = {g!r} -> {res.get_errors()!r}")
+        raise Violation("fake-invalid", f"fake({_r(S)}) = {g!r} -> {res.get_errors()!r}")
 
     if r is not None and _must_draw(spec) and r.draws == 0:
         raise HarnessError("vacuity guard: a spec that must draw consumed no scripted RNG outcome "
@@ -249,7 +264,8 @@ def check(case, ctx):
 def require(ctx, tier):
     L = ctx.labels
     total = L.get("mode:scripted", 0) + L.get("mode:seeded", 0)
-    skipped = sum(v for k, v in L.items() if k.startswith("skip:") and k != "skip:substitution-refused")
+    skipped = sum(v for k, v in L.items() if k.startswith("skip:") and k not in (
+        "skip:substitution-refused", "skip:substitution-raised(C12)", "skip:malformed-result(C12 finding)"))
     if total == 0 or skipped > 0.1 * (total + skipped):
         raise HarnessError(f"C01: too many cases outside the domain ({skipped} skipped / {total} run): "
                            f"{ {k: v for k, v in L.items() if k.startswith('skip:')} }")
